@@ -96,6 +96,11 @@ func VerifC13Frozen() {
 	slack := vsym.Param("slack")
 	if need+slack >= 0 {
 		buf := make([]byte, need+slack)
+		if vsym.Param("arena") == 1 {
+			// a too-short slot carved from a larger backing array: the capacity reaches the frozen size, the length does not
+			big := make([]byte, need+slack+16)
+			buf = big[:need+slack]
+		}
 		for i := range buf {
 			buf[i] = 0xEE
 		}
